@@ -471,3 +471,13 @@ package tchannel
 //@   label no-peers-reported-for-empty-list
 //@   ensures old(len(c.peers.peerHeap.peerScores)) == 0 ==> call == nil && err == old(ErrNoPeers)
 //@   property C15
+
+// "fewer pending calls first": what a peer's score counts is, for every
+// connection of either direction, the calls WE have pending on it -- the
+// exchanges of the connection's outbound table (nexch: the count the table
+// reported, see the C04 file).
+//@ func (p *Peer) NumPendingOutbound() (count int)
+//@   label each-connection-contributes-its-outbound-exchanges
+//@   loop 0 step count == int(prev(count) + nexch(c.outbound))
+//@   loop 1 step count == int(prev(count) + nexch(c.outbound))
+//@   property C15
